@@ -113,8 +113,24 @@ SPEC = [
     {'module': 'decoder', 'file': 'pybufrkit/decoder.py',
      'consts': ['DATA_CATEGORY_DEFINE_BUFR_TABLES'],
      'records': {'Msg': {'fields': {'serialized_bytes': 'bytes', 'length.value': 'int', 'data_category.value': 'int',
-                                    'n_subsets.value': 'int'}}},
-     'flowfuncs': {'generate_bufr_message': {
+                                    'n_subsets.value': 'int'}},
+                 'Section': {'fields': {'section_length.value': 'int'}}},
+     'flowfuncs': {
+      # ---- C04 / C12: the end of Decoder.process_section (declared section length: padding skipped, overrun refused) ----
+      'process_section_finish': {
+         'class': 'Decoder', 'method': 'process_section', 'fragment_from': "if 'section_length' in section:",
+         'params': {'bit_reader': 'obj', 'section': 'Section'},
+         'ignored_params': ['self', 'bufr_message'],
+         'returns': 'int',
+         'contains': {'section': {'lean': 'section_contains', 'arg': 'str'}},
+         'callbacks': {
+             'bit_reader.get_pos': {'lean': 'bit_reader_get_pos', 'receiver': 'bit_reader', 'returns': 'int', 'args': []},
+             'bit_reader.read_bin': {'lean': 'bit_reader_read_bin', 'receiver': 'bit_reader', 'updates_receiver': True,
+                                     'returns': 'obj', 'args': [('pos', 'int')]},
+             'section.get_metadata': {'lean': 'section_get_metadata', 'receiver': 'section', 'returns': 'int',
+                                      'args': [('pos', 'str')]},
+         }},
+      'generate_bufr_message': {
          'params': {'s': 'bytes', 'info_only': 'bool', 'continue_on_error': 'bool', 'filter_expr': 'opt[str]'},
          'ignored_params': ['decoder', '*args', '**kwargs'],
          'locals': {'bufr_message': 'Msg', 'sr': 'opt[obj]'},
@@ -2313,6 +2329,19 @@ class FlowCompiler(MethodCompiler):
         self.except_classes = []             # non-builtin classes named in `except`
         self.yield_type = parse_type(fs['yields']) if fs.get('yields') else None
         self.ignored = set(fs.get('ignored_params', []))
+        frm = fs.get('fragment_from')
+        if frm:
+            # only the trailing statements of the function, from the first top-level statement whose source starts with
+            # the given text; what they read must be a parameter of the fragment (definite-assignment analysis)
+            body = FuncCompiler.body_stmts(self)
+            idx = [i for i, st in enumerate(body) if (ast.get_source_segment('\n'.join(mod.src_lines), st) or '').startswith(frm)]
+            if len(idx) != 1:
+                self.bad(node, 'fragment start %r not found exactly once' % frm)
+            frag = ast.FunctionDef(name=node.name, args=node.args, body=body[idx[0]:], decorator_list=node.decorator_list,
+                                   returns=None, type_comment=None)
+            ast.copy_location(frag, body[idx[0]])
+            frag.end_lineno = node.end_lineno
+            self.node = frag
 
     # -- expressions ------------------------------------------------------------------------------
     def attr_path(self, e):
@@ -2381,6 +2410,22 @@ class FlowCompiler(MethodCompiler):
         return FuncCompiler.e_Subscript(self, e)
 
     def e_Compare(self, e):
+        if (len(e.ops) == 1 and isinstance(e.ops[0], (ast.In, ast.NotIn)) and isinstance(e.comparators[0], ast.Name)
+                and e.comparators[0].id in self.names and e.comparators[0].id in self.fs.get('contains', {})):
+            # `x in obj` for a local object whose `__contains__` is declared as a callback
+            cb = self.fs['contains'][e.comparators[0].id]
+            key = '%s.__contains__' % e.comparators[0].id
+            self.callbacks.setdefault(key, {'lean': cb['lean'], 'receiver': e.comparators[0].id, 'returns': 'bool',
+                                            'args': [('pos', cb['arg'])]})
+            if key not in self.used_callbacks:
+                self.used_callbacks.append(key)
+            recv = self.expr(e.comparators[0])
+            a = self.coerce(self.to_int(self.expr(e.left)), parse_type(cb['arg']), e)
+            neg = '!' if isinstance(e.ops[0], ast.NotIn) else ''
+            r = self.lift([recv, a], lambda c: '(env.%s %s %s)' % (cb['lean'], c[0], c[1]), BOOL, result_raises=True)
+            if neg:
+                r = self.lift([r], lambda c: '(!%s)' % c[0], BOOL)
+            return r
         if len(e.ops) == 1 and isinstance(e.ops[0], (ast.Is, ast.IsNot)) and isinstance(e.comparators[0], ast.Constant) \
                 and e.comparators[0].value is None:
             a = self.expr(e.left)
@@ -2389,6 +2434,11 @@ class FlowCompiler(MethodCompiler):
             fmt = '(Option.isNone %s)' if isinstance(e.ops[0], ast.Is) else '(Option.isSome %s)'
             return self.lift([a], lambda c: fmt % c[0], BOOL)
         return MethodCompiler.e_Compare(self, e)
+
+    def is_module_logger(self, name):
+        nodes = self.mod.assigns.get(name, [])
+        return (len(nodes) == 1 and isinstance(nodes[0], ast.Assign) and isinstance(nodes[0].value, ast.Call)
+                and ast.unparse(nodes[0].value.func) == 'logging.getLogger')
 
     def as_bool(self, ex, node):
         t = prune(ex.ty)
@@ -2470,6 +2520,8 @@ class FlowCompiler(MethodCompiler):
             if x[0] == 'kw':
                 args.append(kwvals[x[1]])
         rty = parse_type(cb['returns'])
+        if cb.get('updates_receiver'):
+            rty = ('tuple', rty, args[0].ty)      # (result, the receiver afterwards)
         return self.lift(args, lambda c: '(env.%s%s)' % (name, ''.join(' ' + x for x in c)), rty, result_raises=True)
 
     # -- statements: terms of type `Py.Flow Locals` ----------------------------------------------------
@@ -2500,7 +2552,22 @@ class FlowCompiler(MethodCompiler):
                 return self.flow_assign(lambda k: '{ v with py_yields := v.py_yields ++ [%s] }' % k, x)
             if self.callback_of(c) is not None:
                 x = self.expr(c)
+                cb = self.callbacks[self.callback_of(c)]
+                if cb.get('updates_receiver'):
+                    # a method that changes its receiver (a bit reader that advances): the new state of the object
+                    t = self.fresh()
+                    return '(Py.Flow.eval v %s (fun %s => Py.Flow.next { v with %s := %s.2 }))' % (
+                        x.code, t, lean_ident(cb['receiver']), t)
                 return '(Py.Flow.eval v %s (fun _ => Py.Flow.next v))' % x.code
+            if (isinstance(c, ast.Call) and isinstance(c.func, ast.Attribute) and isinstance(c.func.value, ast.Name)
+                    and c.func.value.id == 'log' and c.func.attr in ('debug', 'info', 'warning', 'error')
+                    and 'log' not in self.names and self.is_module_logger('log')):
+                effs = []
+                for a in c.args:
+                    effs += self.effects(a)
+                if effs or c.keywords:
+                    self.bad(s, 'log call whose arguments may raise')
+                return None       # logging is not modelled
             if isinstance(c, ast.Call) and isinstance(c.func, ast.Name) and c.func.id == 'print' and self.builtin('print'):
                 # output is not modelled; the arguments are evaluated (a message cannot raise)
                 effs = []
@@ -2563,16 +2630,30 @@ class FlowCompiler(MethodCompiler):
             return body(c.code)
         if isinstance(s, ast.Return):
             if s.value is not None:
-                self.bad(s, '`return` with a value in a flow function')
+                if not self.fs.get('returns') or self.yield_type is not None:
+                    self.bad(s, '`return` with a value in a flow function without a declared result')
+                x = self.coerce(self.to_int(self.expr(s.value)), parse_type(self.fs['returns']), s)
+                if x.raises:
+                    t = self.fresh()
+                    return '(Py.Flow.eval v %s (fun %s => Py.Flow.ret { v with py_return := %s }))' % (x.code, t, t)
+                return '(Py.Flow.ret { v with py_return := %s })' % x.code
             return '(Py.Flow.ret v)'
         if isinstance(s, ast.Raise):
             if s.cause is None and isinstance(s.exc, ast.Name) and s.exc.id in self.names and prune(self.names[s.exc.id][1]) == EXC:
                 return '(Py.Flow.raise %s v)' % self.names[s.exc.id][0]
             text = MethodCompiler.raise_stmt(self, s)
             m = re.match(r'\(Except\.error (\(Py\.Exc\.raised "[^"]*"\))\)$', text)
+            if m:
+                return '(Py.Flow.raise %s v)' % m.group(1)
+            # the arguments are evaluated first, left to right; one of them raising wins
+            m = re.match(r'\(do ((?:let _ ← .*?; )+)\(Except\.error (\(Py\.Exc\.raised "[^"]*"\))\)\)$', text, re.S)
             if not m:
-                self.bad(s, 'raise whose arguments may raise, in a flow function')
-            return '(Py.Flow.raise %s v)' % m.group(1)
+                self.bad(s, 'raise form, in a flow function')
+            effs = re.findall(r'let _ ← (.*?); (?=let _ ←|$)', m.group(1), re.S)
+            out = '(Py.Flow.raise %s v)' % m.group(2)
+            for e in reversed(effs):
+                out = '(Py.Flow.eval v %s (fun _ => %s))' % (e, out)
+            return out
         if isinstance(s, ast.Try):
             return self.ftry(s)
         if isinstance(s, ast.While):
@@ -2728,6 +2809,9 @@ class FlowCompiler(MethodCompiler):
             fields.append((lean_ident(n), lean_type(t), default_value(t)))
         if self.yield_type is not None:
             fields.append(('py_yields', 'List %s' % lean_type(self.yield_type, False), '[]'))
+        elif self.fs.get('returns'):
+            rt0 = parse_type(self.fs['returns'])
+            fields.append(('py_return', lean_type(rt0), default_value(rt0)))
         out = ['namespace %s' % ns,
                '/-- the code this function calls that is NOT translated, as parameters (the theorems quantify over them); a',
                '    callback is a function of the arguments listed in the translator specification that returns or raises;',
@@ -2741,7 +2825,10 @@ class FlowCompiler(MethodCompiler):
             tys += [lean_type(parse_type(x[1]), False) for x in cb['args'] if x[0] == 'pos']
             tys += [lean_type(parse_type(x[2]), False) for x in cb['args'] if x[0] == 'kw']
             out.append('  /-- `%s(...)` -/' % key)
-            out.append('  %s : %s' % (cb['lean'], ' → '.join(tys + ['Except Py.Exc %s' % lean_type(parse_type(cb['returns']), False)])))
+            rt = lean_type(parse_type(cb['returns']), False)
+            if cb.get('updates_receiver'):
+                rt = '(%s × %s)' % (rt, tys[0])
+            out.append('  %s : %s' % (cb['lean'], ' → '.join(tys + ['Except Py.Exc %s' % rt])))
         for c in self.except_classes:
             out.append('  /-- `except %s`: is the exception an instance of that class -/' % c)
             out.append('  isinstance_%s : Py.Exc → Bool' % c)
@@ -2763,6 +2850,10 @@ class FlowCompiler(MethodCompiler):
         if self.yield_type is not None:
             rty = 'List %s × Except Py.Exc Unit' % lean_type(self.yield_type, False)
             fin = '((Py.Flow.finish r).1.py_yields, (Py.Flow.finish r).2)'
+        elif self.fs.get('returns'):
+            # the final variables (the parameter objects as the code left them, `py_return`: the value returned) and how it ended
+            rty = '%s.Locals × Except Py.Exc Unit' % ns
+            fin = 'Py.Flow.finish r'
         else:
             rty = 'Except Py.Exc Unit'
             fin = '(Py.Flow.finish r).2'
@@ -2789,14 +2880,25 @@ def render_flow(gen, spec, func_texts):
         records[rname] = flds
         func_texts.append('\n'.join(st))
     for fname, fs in spec.get('flowfuncs', {}).items():
-        nodes = mod.funcs.get(fname, [])
+        if fs.get('class'):
+            # a method (`self` must be among the ignored parameters), possibly only its trailing statements ('fragment_from')
+            cnodes = mod.classes.get(fs['class'], [])
+            nodes = [n for c in cnodes for n in c.body if isinstance(n, ast.FunctionDef) and n.name == fs['method']] if len(cnodes) == 1 else []
+        else:
+            nodes = mod.funcs.get(fname, [])
         if len(nodes) != 1:
             raise Py2LeanUnsupported(mod.relpath, 0, 'function %s not found exactly once' % fname)
         node = nodes[0]
         params = {p: parse_type(t) for p, t in fs['params'].items()}
         fc = FlowCompiler(mod, gen, node, lean_ident(fname), params, fs, records)
         a, b, _ = mod.src(node)
-        text, _ = fc.render('/-- %s:%d-%d  `def %s` -/' % (mod.relpath, a, b, fname))
+        if fs.get('fragment_from'):
+            a = fc.body_stmts()[0].lineno
+            doc = '/-- %s:%d-%d  the statements of `%s.%s` from `%s` to its end -/' % (
+                mod.relpath, a, b, fs['class'], fs['method'], fs['fragment_from'])
+        else:
+            doc = '/-- %s:%d-%d  `def %s` -/' % (mod.relpath, a, b, fname)
+        text, _ = fc.render(doc)
         func_texts.append(text)
         gen.items.append({'kind': 'function', 'name': fname, 'lines': [a, b], 'may_raise': True})
 
